@@ -427,11 +427,11 @@ func genNode(r *rand.Rand, depth int, c *rawCfg, root bool) *node {
 	if root || r.IntN(3) > 0 {
 		n.receiver = pick(r, c.recvs).name
 	}
-	switch r.IntN(6) {
-	case 0:
-	case 1:
+	switch r.IntN(24) {
+	case 0, 1, 2, 3:
+	case 4:
 		n.gbSet, n.groupBy = true, []string{} // explicit empty list (finding F8 territory)
-	case 2:
+	case 5, 6, 7:
 		n.gbSet, n.groupBy = true, []string{"..."}
 	default:
 		n.gbSet = true
